@@ -493,13 +493,27 @@ def build_recipe(case, second):
         if not st["fields"]:
             del st["fields"]
         stmts.append(st)
-        handles = [t["table"]] + ([t["nick"]] if t.get("nick") else [])
+        # at the end of an iteration the table name denotes the row of the LAST just_once template
+        # of that table (register_object: last created wins); the nickname denotes its own row
+        last_of_table = all(u["table"] != t["table"] for u in case["templates"][ti + 1:])
+        shared = sum(1 for u in case["templates"] if u["table"] == t["table"]) > 1
+        handles = ([t["table"]] if last_of_table else []) + ([t["nick"]] if t.get("nick") else [])
         for h in handles:
             for fn, spec in [["id", ["int", 0]]] + t["fields"]:
                 peeks.append([h, fn])
                 probe[f"p{len(peeks) - 1}"] = {"Vals.peek": len(peeks) - 1}
                 if case["version"] == 3 and is_ident(h) and is_ident(fn) and formula_safe(spec):
                     probe[f"q{len(peeks) - 1}"] = "${{%s.%s}}" % (h, fn)
+        if last_of_table and shared:
+            # fields that only the other rows of this table have: absent before and after a load
+            for u in case["templates"][:ti]:
+                if u["table"] == t["table"]:
+                    for fn, _ in u["fields"]:
+                        if fn not in [f for f, _ in t["fields"]] and [t["table"], fn] not in peeks:
+                            peeks.append([t["table"], fn])
+                            probe[f"p{len(peeks) - 1}"] = {"Vals.peek": len(peeks) - 1}
+            if case["version"] == 3 or is_ident(t["table"]):
+                probe[f"r{ti}"] = {"reference": t["table"]}      # `reference: Table` resolves by table name
     peeks.append(["today", None])
     probe["ptoday"] = {"Vals.peek": len(peeks) - 1}
     if second and case.get("extra"):
@@ -997,9 +1011,10 @@ def _peek_log(log):
 
 
 def _probe_q(rows):
+    """formula probes (q*) and by-table references (r*) of the first probe row of a run"""
     for t, fs in rows:
         if t == PROBE_TABLE:
-            return {f: v for f, v in fs if f.startswith("q")}
+            return {f: v for f, v in fs if f.startswith("q") or f.startswith("r")}
     return None
 
 
@@ -1147,15 +1162,14 @@ def oracle(case, obs):
         qn = _probe_q(h["rows"])
         if q1 is not None and qn is not None and q1 != qn:
             f = next(f for f in q1 if q1.get(f) != qn.get(f))
-            return f"probe-differs: formula probe {f} gave {show(q1[f])} in the first run and {show(qn.get(f))} in {nth}"
+            what = "`reference: <table>` probe" if f.startswith("r") else "formula probe"
+            return f"probe-differs: {what} {f} gave {show(q1[f])} in the first run and {show(qn.get(f))} in {nth}"
         # the file written by the continued run: persistent rows, bindings, today unchanged; counters advanced
         t2 = h.get("tree")
         if t2 is None or t2[0] == "unparsable":
             return f"file-unreadable: file written by {nth}: {t2}"
         for key in ("persistent_nicknames", "persistent_objects_by_table", "nicknames_and_tables", "today"):
             a, b = _tree_get(prev_tree, key), _tree_get(t2, key)
-            if key == "persistent_objects_by_table" and case.get("extra"):
-                continue
             if a != b:
                 return f"not-carried-over: {key} changed across {nth}: {_tree_diff(a, b, key) if a and b else (a, b)}"
         i1, i2 = _tree_ids(prev_tree), _tree_ids(t2)
@@ -1228,11 +1242,17 @@ def _names(rng, pool_ident, pool_hostile, n, p_hostile, taken):
     return out
 
 
-def gen_recipe_case(rng, findings=False, single=None):
+def gen_recipe_case(rng, findings=False, single=None, shared_tables=None):
     version = 3 if rng.random() < 0.8 else 2
     nt = rng.choice([1, 1, 2, 2, 3])
     taken = {PROBE_TABLE, EXTRA_TABLE, EXTRA_NICK}
     tables = _names(rng, IDENT_TABLES, HOSTILE_TABLES, nt, 0.3, taken)
+    if shared_tables is None:
+        shared_tables = nt > 1 and rng.random() < 0.45
+    if shared_tables:      # several just_once templates feeding one table, with and without nicknames
+        for ti in range(1, nt):
+            if rng.random() < 0.7:
+                tables[ti] = tables[rng.randrange(ti)]
     taken |= set(tables)
     templates = []
     for ti in range(nt):
@@ -1244,6 +1264,7 @@ def gen_recipe_case(rng, findings=False, single=None):
         fnames = _names(rng, IDENT_FIELDS, HOSTILE_FIELDS, nf, 0.35, {"id"})
         fields = [[fn, gen_scalar_spec(rng)] for fn in fnames]
         templates.append({"table": tables[ti], "nick": nick, "count": rng.choice([1, 1, 1, 2]), "fields": fields})
+
     if single is not None:
         templates[0]["fields"][0][1] = single
     if findings:
@@ -1256,8 +1277,8 @@ def gen_recipe_case(rng, findings=False, single=None):
         t = templates[ti]
         hidden = t["table"].startswith("__")
         others = [x for j, x in enumerate(templates) if j != ti and "." not in x["table"]]
-        earlier = [x for x in templates[:ti] if "." not in x["table"]]
-        later = [x for x in templates[ti + 1:] if "." not in x["table"]]
+        earlier = [x for x in templates[:ti] if "." not in x["table"] and x["table"] != t["table"]]
+        later = [x for x in templates[ti + 1:] if "." not in x["table"] and x["table"] != t["table"]]
         spec = None
         if kind == "objref":
             spec = ["objref", rng.choice(IDENT_TABLES), rng.randint(1, 9)]
@@ -1273,7 +1294,9 @@ def gen_recipe_case(rng, findings=False, single=None):
         fn = _names(rng, ["owner", "parent", "amt"], HOSTILE_FIELDS, 1, 0.2, {f for f, _ in t["fields"]} | {"id"})[0]
         t["fields"].insert(rng.randrange(len(t["fields"]) + 1), [fn, spec])
     return {"kind": "recipe", "version": version, "route": "literal" if rng.random() < 0.3 else "plugin",
-            "templates": templates, "hops": rng.choice([1, 1, 2, 3]), "chain": rng.choice([1, 2, 3, 4]),
+            "templates": templates, "chain": rng.choice([1, 2, 3, 4]),
+            # a table fed by several templates: look at the by-table binding after one AND after two loads
+            "hops": rng.choice([2, 3]) if len({t["table"] for t in templates}) < len(templates) else rng.choice([1, 1, 2, 3]),
             "today": rng.choice([None, [2001, 2, 3], [2024, 2, 29], [1, 1, 1], [9999, 12, 31], list(_random_date(rng))]),
             "extra": rng.random() < 0.3, "target": rng.choice([None, None, 2, 3])}
 
@@ -1302,6 +1325,14 @@ def gen_direct_case(rng, findings=False):
                 vals.insert(rng.randrange(1, len(vals) + 1), ["ref_" + k, spec])
             rng.shuffle(vals)
             rows.append({"table": t, "nick": nick, "values": vals})
+            while rng.random() < 0.3:      # further just_once rows of the same table; the last one owns the table name
+                nick2 = None
+                if rng.random() < 0.6:
+                    nick2 = _names(rng, IDENT_NICKS, HOSTILE_TABLES, 1, 0.4, taken)[0]
+                    taken.add(nick2)
+                    nat.append([nick2, t])
+                rows.append({"table": t, "nick": nick2,
+                             "values": [["id", ["int", len(rows) + 2]], [rng.choice(IDENT_FIELDS), gen_scalar_spec(rng)]]})
     rng.shuffle(nat)
     ids = [[t, rng.choice([0, 1, 2, 8, 9, 1000, 2 ** 64, 2 ** 200])] for t in tables if rng.random() < 0.9]
     rng.shuffle(ids)
@@ -1415,10 +1446,35 @@ def boundary_cases(rng):
     return out
 
 
+def shared_table_cases():
+    """several just_once templates feeding ONE table, with and without nicknames, in every order;
+    chains of 3-4 runs so that the by-table binding is seen after one and after two loads"""
+    out = []
+    orders = [["West", "East"], ["East", "West"], ["Home", None], [None, "Home"], [None, None],
+              ["a1", "b1", None], ["a1", None, "b1"], ["b1", "a1", None], ["b1", None, "a1"],
+              [None, "a1", "b1"], [None, "b1", "a1"], ["West", "East", "Mid"]]
+    for i, nicks in enumerate(orders):
+        tpls = [{"table": "Region", "nick": n, "count": 1,
+                 "fields": [["name", ["str", f"row{j}"]]] + ([[f"only{j}", ["int", j]]] if j % 2 else [])}
+                for j, n in enumerate(nicks)]
+        if i % 3 == 2:      # another table in between
+            tpls.insert(1, {"table": "Shop", "nick": "sh", "count": 1, "fields": [["name", ["str", "s"]]]})
+        out.append({"kind": "recipe", "version": 3 if i % 4 else 2, "route": "plugin", "templates": tpls,
+                    "hops": 2 + i % 2, "chain": 3, "today": [2001, 2, 3] if i % 2 else None,
+                    "extra": i % 5 == 0, "target": [None, 2, 3][i % 3]})
+        rows = [{"table": "Region", "nick": n, "values": [["id", ["int", j + 1]], ["name", ["str", f"row{j}"]]]}
+                for j, n in enumerate(nicks)]
+        nat = [["Region", "Region"]] + [[n, "Region"] for n in nicks if n]
+        out.append({"kind": "direct", "nat": nat, "ids": [["Region", len(nicks)]], "rows": rows, "deps": [],
+                    "today": [2024, 2, 29], "chain": 3})
+    return out
+
+
 def generate(rng, tier):
     quick = tier == "quick"
     cases = []
     cases.extend(boundary_cases(rng))
+    cases.extend(shared_table_cases())
     for _ in range(140 if quick else 4000):
         cases.append(gen_recipe_case(rng))
     for _ in range(24 if quick else 400):
@@ -1474,6 +1530,11 @@ def stats(cases, obss):
             if c.get("extra"):
                 feats["extra-template-in-continued-run"] += 1
             feats[f"templates{len(c['templates'])}"] += 1
+            tabs = [t["table"] for t in c["templates"]]
+            if len(set(tabs)) < len(tabs):
+                feats["several-templates-one-table"] += 1
+                last = max(i for i, t in enumerate(c["templates"]) if tabs.count(t["table"]) > 1)
+                feats["  table name owned by " + ("a nicknamed" if c["templates"][last].get("nick") else "an anonymous") + " row"] += 1
             if any(not is_ident(t["table"]) or (t.get("nick") and not is_ident(t["nick"])) for t in c["templates"]):
                 feats["hostile-table-or-nickname"] += 1
             if any(not is_ident(f) for t in c["templates"] for f, _ in t["fields"]):
@@ -1546,6 +1607,9 @@ def directed_search(rng, disagreeing):
     out = boundary_cases(rng)
     for c in out:
         c["today"] = [2001, 2, 3]
+    out.extend(shared_table_cases())
+    for _ in range(200):
+        out.append(gen_recipe_case(rng, shared_tables=True))
     for _ in range(400):
         out.append(gen_recipe_case(rng))
     for _ in range(600):
